@@ -386,11 +386,11 @@ Section Proofs.
           destruct item as [ | | |c| | | ]; try discriminate.
           assert (Hc : closed c) by (apply Hr; cbn [refs]; left; reflexivity).
           cbn [fast_val]. destruct x; try (exists ch; split; [reflexivity|exact Hf]).
+          destruct (class_is_fast e c); cbn [bind]; [|exists ch; split; [reflexivity|exact Hf]].
           destruct (freeze_fresh ch (dc, fname, c) Hf) as [F1 E1].
           destruct (freeze e ps own ch (dc, fname, c)) as [ch1 f]. cbn [fst snd ckey_item] in *. subst f.
           destruct (mapM_st_sim _ _ (call_ref_sim c Hc) ch1 l F1) as [ch2 [E2 F2]].
-          rewrite E2. cbn [fast_val] in *. unfold FC at 1.
-          fold (FC n c). destruct (mapM (FC n c) l); cbn [wrap_list bind]; exists ch2; split; auto.
+          rewrite E2. fold (FC n c). destruct (mapM (FC n c) l); cbn [wrap_list bind]; exists ch2; split; auto.
         + (* Set of a class *)
           destruct item as [ | | |c| | | ]; try discriminate.
           assert (Hc : closed c) by (apply Hr; cbn [refs]; left; reflexivity).
